@@ -149,16 +149,16 @@ class Origin:
         return False
 
 
-def execute(case, role, rnd):
+def execute(case, role, rnd, threaded=False):
     log = []
     if role == 'forward':
-        conv = scen.Conversation(args=[])
+        conv = scen.Conversation(args=[], threaded=threaded)
     elif role == 'web':
-        conv = scen.Conversation(args=['--enable-web-server'], flag_opts={'plugins': web_plugins(log)})
+        conv = scen.Conversation(args=['--enable-web-server'], flag_opts={'plugins': web_plugins(log)}, threaded=threaded)
     elif role == 'reverse-mixed':
-        conv = scen.Conversation(args=['--enable-reverse-proxy'], flag_opts={'plugins': [reverse_mixed_plugin(log)]})
+        conv = scen.Conversation(args=['--enable-reverse-proxy'], flag_opts={'plugins': [reverse_mixed_plugin(log)]}, threaded=threaded)
     else:
-        conv = scen.Conversation(args=['--enable-reverse-proxy'], flag_opts={'plugins': [reverse_plugin()]})
+        conv = scen.Conversation(args=['--enable-reverse-proxy'], flag_opts={'plugins': [reverse_plugin()]}, threaded=threaded)
     origins = {'a': Origin('a'), 'b': Origin('b')}
 
     def on_accept(peer, host, port):
@@ -251,12 +251,14 @@ def run(chk):
     chk.add_tlc('Persist -simulate (polite client: next request after the previous response, no segment spans requests)', g2)
     behs += behs2
     traces, infos = [], []
-    for case in behs:
-        for role in ('forward', 'web', 'reverse', 'reverse-mixed'):
-            obs = execute(case, role, rnd)
+    for nc, case in enumerate(behs):
+        for role, threaded in [(r_, False) for r_ in ('forward', 'web', 'reverse', 'reverse-mixed')] + \
+                ([(('forward', 'web', 'reverse', 'reverse-mixed')[(nc // 4) % 4], True)] if nc % 4 == 3 else []):
+            # every fourth history once more with the connection handled as --threaded mode does (own selector, run() loop)
+            obs = execute(case, role, rnd, threaded)
             tid = len(traces) + 1
             traces.append({'id': tid, 'script': case['script'], 'got': obs['got'], 'inbox': obs['inbox'], 'ceof': obs['ceof']})
-            infos.append({'role': role, 'script': case['script'], 'schedule': [' '.join(s) for s in case['schedule']], 'packed': obs['packed'], 'overlap': obs['overlap'],
+            infos.append({'role': role, 'mode': 'threaded' if threaded else 'threadless', 'script': case['script'], 'schedule': [' '.join(s) for s in case['schedule']], 'packed': obs['packed'], 'overlap': obs['overlap'],
                           'bodies': obs['bodies'], 'alive': obs['alive'], 'loop_error': obs['loop_error']})
             if not obs['alive']:
                 chk.notes.append('executor loop died (%s, script %s): %s (reported under C05)' % (role, case['script'], obs['loop_error']))
@@ -271,7 +273,7 @@ def run(chk):
         kind = re.sub(r'\d+', 'N', clause.split(' but ')[0].split(':')[0])[:70]
         sig = {'role': info['role'], 'kind': kind, 'multi_origin': len(set(info['script'])) > 1, 'packed': info['packed'], 'overlap': info['overlap'],
                'loop_died': not info['alive']}
-        chk.violation(sig, '%s script %s schedule [%s]: %s' % (info['role'], info['script'], ', '.join(info['schedule']), clause),
+        chk.violation(sig, '%s script %s schedule [%s]: %s' % (info['role'] + ('/threaded' if info['mode'] == 'threaded' else ''), info['script'], ', '.join(info['schedule']), clause),
                       {'info': info, 'observed': t})
     for i, t in list(zip(infos, traces))[:3]:
         chk.sample({'role': i['role'], 'script': i['script'], 'schedule': i['schedule'], 'client_got': t['got'], 'inbox': t['inbox']})
